@@ -557,7 +557,9 @@ func sessionMain(s *simrt.Sim, info *harness.RunInfo) {
 				return
 			}
 			isLive := !op.obs.Fresh && op.obs.ID == op.present && op.present != ""
-			isNew := op.obs.Fresh && len(op.obs.Data) == 0 && op.obs.ID != op.present && gen[op.obs.ID]
+			// with the store API used twice in one request the observed (second) Get may
+			// already see the session the first Get created and saved: not "fresh" any more
+			isNew := (op.obs.Fresh || (op.twice && op.route == "store")) && len(op.obs.Data) == 0 && op.obs.ID != op.present && gen[op.obs.ID]
 			switch {
 			case pre == alive && !isLive:
 				s.Fail("C15.persistent", "op%d presented live session %q (data %v): handler saw id=%q fresh=%v data=%v", op.id, op.present, mstate.data, op.obs.ID, op.obs.Fresh, op.obs.Data)
